@@ -94,6 +94,8 @@ func main() {
 		os.Exit(drive(os.Args[2:]))
 	case "replay":
 		os.Exit(replay(os.Args[2:]))
+	case "race":
+		os.Exit(raceMain(os.Args[2:]))
 	case "list":
 		var ids []string
 		for id := range props.Registry {
@@ -416,6 +418,18 @@ func drive(args []string) int {
 		}
 	}
 
+	extraCov := map[string]interface{}{}
+	if p.Extra != nil && !harnessBroken {
+		ex, vs := p.Extra(&props.Cfg{Tier: tier, Thorough: tier == "thorough", Seed: seed(), Level: props.ArchLevel()})
+		for k, v := range ex {
+			extraCov[k] = v
+		}
+		for _, v := range vs {
+			vv := v
+			viol[v.Key] = &vrec{vv, -1}
+		}
+	}
+
 	known := loadKnown(dir)
 	isKnown := func(key string) *knownFinding {
 		for i := range known {
@@ -486,6 +500,9 @@ func drive(args []string) int {
 		"workers":                       len(jobs),
 		"samples":                       samples,
 		"states_note":                   "sum over worker processes of distinct fingerprints seen by each worker",
+	}
+	for k, v := range extraCov {
+		cov[k] = v
 	}
 	if len(caps) > 0 {
 		cov["caps_hit"] = caps
